@@ -35,20 +35,24 @@ package http2
 //@ pure func accepted(sc *serverConn, f Frame) bool = (sc.sawFirstSettings || isptr(SettingsFrame, f)) && !discarded(sc, f)
 //@ pure func frameOK(f Frame) bool = (isptr(SettingsFrame, f) ==> unboxptr(SettingsFrame, f) != nil) && (isptr(MetaHeadersFrame, f) ==> unboxptr(MetaHeadersFrame, f) != nil && unboxptr(MetaHeadersFrame, f).HeadersFrame != nil) && (isptr(WindowUpdateFrame, f) ==> unboxptr(WindowUpdateFrame, f) != nil) && (isptr(PingFrame, f) ==> unboxptr(PingFrame, f) != nil) && (isptr(DataFrame, f) ==> unboxptr(DataFrame, f) != nil) && (isptr(RSTStreamFrame, f) ==> unboxptr(RSTStreamFrame, f) != nil) && (isptr(PriorityFrame, f) ==> unboxptr(PriorityFrame, f) != nil) && (isptr(GoAwayFrame, f) ==> unboxptr(GoAwayFrame, f) != nil) && (isptr(PushPromiseFrame, f) ==> unboxptr(PushPromiseFrame, f) != nil)
 
+//@ -- what is captured, as values
+//@ pure func capSettings(p seq[byte], n int) seq[metadata.Setting] = ite(n <= 0, seq[metadata.Setting]{}, capSettings(p, n-1) ++ seq[metadata.Setting]{mk(metadata.Setting, settingID(p, n-1), settingVal(p, n-1))})
+//@ pure func capHeaders(fs seq[hpack.HeaderField], n int) seq[metadata.HeaderField] = ite(n <= 0, seq[metadata.HeaderField]{}, capHeaders(fs, n-1) ++ seq[metadata.HeaderField]{mk(metadata.HeaderField, fs[n-1].Name, fs[n-1].Value, fs[n-1].Sensitive)})
+//@ pure func capMD(sc *serverConn) *metadata.Metadata = ctxMeta(sc.baseCtx)
+
 //@ func (*serverConn).processFrame :: sc, f -> err
 //@   props C03,C13,C10
-//@   requires sc != nil && f != nil && frameOK(f)
+//@   requires sc != nil && f != nil && frameOK(f) && sc.inflow.avail >= 0
 //@   requires hasMeta(sc.baseCtx) ==> ctxMeta(sc.baseCtx) != nil
 //@   structural [C03:captured-before-processing] stores_before_calls HTTP2FingerprintingFrames process
 //@   ensures [C13:first-frame-must-be-settings] !old(sc.sawFirstSettings) && !isptr(SettingsFrame, f) ==> isConnErr(err, 1)
-//@   ensures [C03:settings-replaced-by-latest-non-ack] old(accepted(sc, f)) && old(hasMeta(sc.baseCtx)) && isptr(SettingsFrame, f) && !flag(old(hdrOf(f)).Flags, 1) ==> len(old(ctxMeta(sc.baseCtx)).HTTP2Frames.Settings) == len(old(unboxptr(SettingsFrame, f).p)) / 6 && (forall i int :: 0 <= i && i < len(old(unboxptr(SettingsFrame, f).p)) / 6 ==> old(ctxMeta(sc.baseCtx)).HTTP2Frames.Settings[i].Id == settingID(old(unboxptr(SettingsFrame, f).p), i) && old(ctxMeta(sc.baseCtx)).HTTP2Frames.Settings[i].Val == settingVal(old(unboxptr(SettingsFrame, f).p), i))
-//@   ensures [C03:settings-ack-ignored] isptr(SettingsFrame, f) && flag(old(hdrOf(f)).Flags, 1) && old(hasMeta(sc.baseCtx)) ==> old(ctxMeta(sc.baseCtx)).HTTP2Frames.Settings == old(ctxMeta(sc.baseCtx).HTTP2Frames.Settings)
-//@   ensures [C03:first-window-update-wins] old(accepted(sc, f)) && old(hasMeta(sc.baseCtx)) && isptr(WindowUpdateFrame, f) ==> old(ctxMeta(sc.baseCtx)).HTTP2Frames.WindowUpdateIncrement == ite(old(ctxMeta(sc.baseCtx).HTTP2Frames.WindowUpdateIncrement) == 0, old(unboxptr(WindowUpdateFrame, f).Increment), old(ctxMeta(sc.baseCtx).HTTP2Frames.WindowUpdateIncrement))
-//@   ensures [C03:priority-frame-appended] old(accepted(sc, f)) && old(hasMeta(sc.baseCtx)) && isptr(PriorityFrame, f) ==> len(old(ctxMeta(sc.baseCtx)).HTTP2Frames.Priorities) == len(old(ctxMeta(sc.baseCtx).HTTP2Frames.Priorities)) + 1 && old(ctxMeta(sc.baseCtx)).HTTP2Frames.Priorities[:len(old(ctxMeta(sc.baseCtx).HTTP2Frames.Priorities))] == old(ctxMeta(sc.baseCtx).HTTP2Frames.Priorities) && old(ctxMeta(sc.baseCtx)).HTTP2Frames.Priorities[len(old(ctxMeta(sc.baseCtx).HTTP2Frames.Priorities))].StreamId == old(hdrOf(f)).StreamID && old(ctxMeta(sc.baseCtx)).HTTP2Frames.Priorities[len(old(ctxMeta(sc.baseCtx).HTTP2Frames.Priorities))].StreamDep == old(unboxptr(PriorityFrame, f).PriorityParam.StreamDep) && old(ctxMeta(sc.baseCtx)).HTTP2Frames.Priorities[len(old(ctxMeta(sc.baseCtx).HTTP2Frames.Priorities))].Exclusive == old(unboxptr(PriorityFrame, f).PriorityParam.Exclusive) && old(ctxMeta(sc.baseCtx)).HTTP2Frames.Priorities[len(old(ctxMeta(sc.baseCtx).HTTP2Frames.Priorities))].Weight == old(unboxptr(PriorityFrame, f).PriorityParam.Weight)
-//@   ensures [C03:headers-latest-block] old(accepted(sc, f)) && old(hasMeta(sc.baseCtx)) && isptr(MetaHeadersFrame, f) ==> len(old(ctxMeta(sc.baseCtx)).HTTP2Frames.Headers) == len(old(unboxptr(MetaHeadersFrame, f).Fields)) && (forall i int :: 0 <= i && i < len(old(unboxptr(MetaHeadersFrame, f).Fields)) ==> old(ctxMeta(sc.baseCtx)).HTTP2Frames.Headers[i].Name == old(unboxptr(MetaHeadersFrame, f).Fields)[i].Name)
-//@   ensures [C03:headers-priority-iff-flag] old(accepted(sc, f)) && old(hasMeta(sc.baseCtx)) && isptr(MetaHeadersFrame, f) ==> len(old(ctxMeta(sc.baseCtx)).HTTP2Frames.Priorities) == len(old(ctxMeta(sc.baseCtx).HTTP2Frames.Priorities)) + ite(flag(old(hdrOf(f)).Flags, 32), 1, 0) && (flag(old(hdrOf(f)).Flags, 32) ==> old(ctxMeta(sc.baseCtx)).HTTP2Frames.Priorities[len(old(ctxMeta(sc.baseCtx).HTTP2Frames.Priorities))].StreamId == old(hdrOf(f)).StreamID && old(ctxMeta(sc.baseCtx)).HTTP2Frames.Priorities[len(old(ctxMeta(sc.baseCtx).HTTP2Frames.Priorities))].Weight == old(unboxptr(MetaHeadersFrame, f).HeadersFrame.Priority.Weight))
-//@   ensures [C03:other-frames-capture-nothing] old(hasMeta(sc.baseCtx)) && (!old(accepted(sc, f)) || (!isptr(SettingsFrame, f) && !isptr(WindowUpdateFrame, f) && !isptr(PriorityFrame, f) && !isptr(MetaHeadersFrame, f))) ==> old(ctxMeta(sc.baseCtx)).HTTP2Frames.Settings == old(ctxMeta(sc.baseCtx).HTTP2Frames.Settings) && old(ctxMeta(sc.baseCtx)).HTTP2Frames.WindowUpdateIncrement == old(ctxMeta(sc.baseCtx).HTTP2Frames.WindowUpdateIncrement) && old(ctxMeta(sc.baseCtx)).HTTP2Frames.Priorities == old(ctxMeta(sc.baseCtx).HTTP2Frames.Priorities) && old(ctxMeta(sc.baseCtx)).HTTP2Frames.Headers == old(ctxMeta(sc.baseCtx).HTTP2Frames.Headers)
-//@   loop 1 invariant 0 <= i && i <= len(f#SettingsFrame.p) / 6 && len(settings) == i
-//@   loop 1 invariant forall k int :: 0 <= k && k < i ==> settings[k].Id == settingID(f#SettingsFrame.p, k) && settings[k].Val == settingVal(f#SettingsFrame.p, k)
+//@   ensures [C03:settings-replaced-by-latest-non-ack] old(accepted(sc, f)) && old(hasMeta(sc.baseCtx)) && isptr(SettingsFrame, f) && !flag(old(hdrOf(f)).Flags, 1) ==> old(capMD(sc)).HTTP2Frames.Settings == capSettings(old(unboxptr(SettingsFrame, f).p), len(old(unboxptr(SettingsFrame, f).p)) / 6)
+//@   ensures [C03:settings-ack-ignored] isptr(SettingsFrame, f) && flag(old(hdrOf(f)).Flags, 1) && old(hasMeta(sc.baseCtx)) ==> old(capMD(sc)).HTTP2Frames.Settings == old(capMD(sc).HTTP2Frames.Settings)
+//@   ensures [C03:first-window-update-wins] old(accepted(sc, f)) && old(hasMeta(sc.baseCtx)) && isptr(WindowUpdateFrame, f) ==> old(capMD(sc)).HTTP2Frames.WindowUpdateIncrement == ite(old(capMD(sc).HTTP2Frames.WindowUpdateIncrement) == 0, old(unboxptr(WindowUpdateFrame, f).Increment), old(capMD(sc).HTTP2Frames.WindowUpdateIncrement))
+//@   ensures [C03:priority-frame-appended] old(accepted(sc, f)) && old(hasMeta(sc.baseCtx)) && isptr(PriorityFrame, f) ==> old(capMD(sc)).HTTP2Frames.Priorities == old(capMD(sc).HTTP2Frames.Priorities) ++ seq[metadata.Priority]{mk(metadata.Priority, old(hdrOf(f)).StreamID, old(unboxptr(PriorityFrame, f).PriorityParam.StreamDep), old(unboxptr(PriorityFrame, f).PriorityParam.Exclusive), old(unboxptr(PriorityFrame, f).PriorityParam.Weight))}
+//@   ensures [C03:headers-latest-block] old(accepted(sc, f)) && old(hasMeta(sc.baseCtx)) && isptr(MetaHeadersFrame, f) ==> old(capMD(sc)).HTTP2Frames.Headers == capHeaders(old(unboxptr(MetaHeadersFrame, f).Fields), len(old(unboxptr(MetaHeadersFrame, f).Fields)))
+//@   ensures [C03:headers-priority-iff-flag] old(accepted(sc, f)) && old(hasMeta(sc.baseCtx)) && isptr(MetaHeadersFrame, f) ==> old(capMD(sc)).HTTP2Frames.Priorities == ite(flag(old(hdrOf(f)).Flags, 32), old(capMD(sc).HTTP2Frames.Priorities) ++ seq[metadata.Priority]{mk(metadata.Priority, old(hdrOf(f)).StreamID, old(unboxptr(MetaHeadersFrame, f).HeadersFrame.Priority.StreamDep), old(unboxptr(MetaHeadersFrame, f).HeadersFrame.Priority.Exclusive), old(unboxptr(MetaHeadersFrame, f).HeadersFrame.Priority.Weight))}, old(capMD(sc).HTTP2Frames.Priorities))
+//@   ensures [C03:other-frames-capture-nothing] old(hasMeta(sc.baseCtx)) && (!old(accepted(sc, f)) || (!isptr(SettingsFrame, f) && !isptr(WindowUpdateFrame, f) && !isptr(PriorityFrame, f) && !isptr(MetaHeadersFrame, f))) ==> old(capMD(sc)).HTTP2Frames.Settings == old(capMD(sc).HTTP2Frames.Settings) && old(capMD(sc)).HTTP2Frames.WindowUpdateIncrement == old(capMD(sc).HTTP2Frames.WindowUpdateIncrement) && old(capMD(sc)).HTTP2Frames.Priorities == old(capMD(sc).HTTP2Frames.Priorities) && old(capMD(sc)).HTTP2Frames.Headers == old(capMD(sc).HTTP2Frames.Headers)
+//@   loop 1 invariant 0 <= i && i <= len(f#SettingsFrame.p) / 6 && settings == capSettings(f#SettingsFrame.p, i)
 //@   loop 2 invariant -1 <= rangeindex && rangeindex < len(f#MetaHeadersFrame.Fields) || (rangeindex == -1 && len(f#MetaHeadersFrame.Fields) == 0)
-//@   loop 2 invariant len(headers) == rangeindex + 1 && (forall k int :: 0 <= k && k <= rangeindex ==> headers[k].Name == f#MetaHeadersFrame.Fields[k].Name)
+//@   loop 2 invariant headers == capHeaders(f#MetaHeadersFrame.Fields, rangeindex+1)
